@@ -113,6 +113,8 @@ pub struct Cfg {
     /// now and then a row statement repeats the row statement right before it, entry by entry
     /// (or repeats it with one input column that held the literal 0 turned into `C`)
     pub dup_rows: bool,
+    /// now and then a row holds X in every input-only column (with `wide_inputs`: 64 and more)
+    pub all_x_rows: bool,
     /// virtual signal expressions may use random
     pub virtual_random: bool,
     /// variables and loop counters may be named like signals (Q, R, IO are in the pools)
@@ -172,6 +174,7 @@ impl Cfg {
             shared_cols: false,
             wide_inputs: false,
             dup_rows: true,
+            all_x_rows: false,
             virtual_random: false,
             vars_like_signals: true,
         }
@@ -774,7 +777,13 @@ impl<'a> PGen<'a> {
         let xw = if cfg.allow_input_x { *ch.choose(&[0u32, 2, 6]) } else { 0 };
         let cw = if cfg.allow_c { *ch.choose(&[0u32, 2, 6]) } else { 0 };
         let mut after_zero_bits = false;
+        let all_x = cfg.all_x_rows && ch.chance(1, 6);
         while j < ncols {
+            if all_x && self.cols[j].role == ColRole::InputOnly {
+                es.push(Entry::X(true));
+                j += 1;
+                continue;
+            }
             if cfg.bits_entries && !after_zero_bits && ch.chance(1, 8) {
                 let remaining = (ncols - j).min(64);
                 let mut k = ch.upto(remaining + 1);
